@@ -1409,6 +1409,7 @@ def _records_as_tuples(tree):
     if not isinstance(tree, ast.Module):
         return tree
     recs = {}
+    rec_props = {}
     for st in tree.body:
         if isinstance(st, ast.ClassDef) and any((isinstance(b, ast.Name) and b.id == "NamedTuple") or (isinstance(b, ast.Attribute) and b.attr == "NamedTuple") for b in st.bases):
             fields, defaults = [], {}
@@ -1419,6 +1420,11 @@ def _records_as_tuples(tree):
                         defaults[x.target.id] = x.value
             if fields:
                 recs[st.name] = (fields, defaults)
+                for x in st.body:
+                    if isinstance(x, ast.FunctionDef) and any(isinstance(d, ast.Name) and d.id == "property" for d in x.decorator_list):
+                        body = [b for b in x.body if not (isinstance(b, ast.Expr) and isinstance(b.value, ast.Constant))]
+                        if len(body) == 1 and isinstance(body[0], ast.Return) and body[0].value is not None:
+                            rec_props.setdefault(st.name, {})[x.name] = body[0].value
         elif isinstance(st, ast.Assign) and len(st.targets) == 1 and isinstance(st.targets[0], ast.Name) and isinstance(st.value, ast.Call) \
                 and ((isinstance(st.value.func, ast.Name) and st.value.func.id == "namedtuple") or (isinstance(st.value.func, ast.Attribute) and st.value.func.attr == "namedtuple")) \
                 and len(st.value.args) >= 2:
@@ -1488,7 +1494,8 @@ def _records_as_tuples(tree):
         for n in ast.walk(fn):
             if isinstance(n, ast.Name) and isinstance(n.ctx, ast.Load) and n.id in cands:
                 p_ = par.get(n)
-                loads.setdefault(n.id, []).append(p_.attr if isinstance(p_, ast.Attribute) and p_.value is n and p_.attr in recs[cands[n.id][1]][0] else None)
+                ok_attrs = set(recs[cands[n.id][1]][0]) | set(rec_props.get(cands[n.id][1], {}))
+                loads.setdefault(n.id, []).append(p_.attr if isinstance(p_, ast.Attribute) and p_.value is n and p_.attr in ok_attrs else None)
         for v, (st, rec) in cands.items():
             fields = recs[rec][0]
             uses = loads.get(v, [])
@@ -1497,10 +1504,20 @@ def _records_as_tuples(tree):
             class A(ast.NodeTransformer):
                 def visit_Attribute(self, n):
                     self.generic_visit(n)
+                    if only_fields and isinstance(n.value, ast.Name) and n.value.id == v and n.attr in rec_props.get(rec, {}) and isinstance(n.ctx, ast.Load):
+                        # a one-expression property of the record, read on this record: its expression over the record's fields
+                        class P(ast.NodeTransformer):
+                            def visit_Attribute(self, m):
+                                self.generic_visit(m)
+                                if isinstance(m.value, ast.Name) and m.value.id == "self" and m.attr in fields:
+                                    return ast.copy_location(ast.Name(id=f"{v}_{m.attr}", ctx=ast.Load()), m)
+                                return m
+                        return ast.copy_location(P().visit(copy.deepcopy(rec_props[rec][n.attr])), n)
                     if isinstance(n.value, ast.Name) and n.value.id == v and n.attr in fields and isinstance(n.ctx, ast.Load):
                         if only_fields:
                             return ast.copy_location(ast.Name(id=f"{v}_{n.attr}", ctx=ast.Load()), n)
-                        return ast.copy_location(ast.Subscript(value=n.value, slice=ast.Constant(value=fields.index(n.attr)), ctx=ast.Load()), n)
+                        # the record is also used as a whole (passed on, a property read): the field names stay (a `[0]` would read like "first element")
+                        return n
                     return n
             A().visit(fn)
             if only_fields:
@@ -1554,8 +1571,81 @@ def _instance_constants(tree):
     return tree
 
 
+# N29: a private slotted record is the dict it replaced ------------------------------------------------------------------------------
+def _slotted_records_as_dicts(tree):
+    """N29: `class _Rec: __slots__ = ("a", "b")` whose `__init__` only stores constants / its own parameters into those slots, used as a mutable
+    accumulator (`r = _Rec(); r.a = ..; if r.a is None ..`), reads as the dict literal it usually replaces: `_Rec()` -> `{'a': None, 'b': None}`,
+    `r.a` -> `r['a']` for every plain name `r` (not self / cls) - provided no other class of the module has attributes of those names."""
+    if not isinstance(tree, ast.Module):
+        return tree
+    recs = {}
+    for st in tree.body:
+        if not (isinstance(st, ast.ClassDef) and st.name.startswith("_") and not st.bases):
+            continue
+        slots = None
+        for x in st.body:
+            if isinstance(x, ast.Assign) and len(x.targets) == 1 and isinstance(x.targets[0], ast.Name) and x.targets[0].id == "__slots__" \
+                    and isinstance(x.value, (ast.Tuple, ast.List)) and all(isinstance(e, ast.Constant) and isinstance(e.value, str) for e in x.value.elts):
+                slots = [e.value for e in x.value.elts]
+        init = next((m for m in st.body if isinstance(m, ast.FunctionDef) and m.name == "__init__"), None)
+        others = [m for m in st.body if isinstance(m, ast.FunctionDef) and m.name != "__init__"]
+        if not slots or init is None or others:
+            continue
+        params = [a.arg for a in init.args.args[1:]]
+        pdef = dict(zip(params[len(params) - len(init.args.defaults):], init.args.defaults))
+        vals, ok = {}, True
+        for b in init.body:
+            if isinstance(b, ast.Expr) and isinstance(b.value, ast.Constant):
+                continue
+            tg = b.targets[0] if isinstance(b, ast.Assign) and len(b.targets) == 1 else (b.target if isinstance(b, ast.AnnAssign) and b.value is not None else None)
+            if isinstance(tg, ast.Attribute) and isinstance(tg.value, ast.Name) and tg.value.id == "self" and tg.attr in slots \
+                    and (isinstance(b.value, ast.Constant) or (isinstance(b.value, ast.Name) and b.value.id in params)):
+                vals[tg.attr] = b.value
+            else:
+                ok = False
+        if ok and set(vals) == set(slots):
+            recs[st.name] = (slots, vals, params, pdef)
+    if not recs:
+        return tree
+    all_fields = {f for r in recs.values() for f in r[0]}
+    # the field names must not be attributes of anything else in the module
+    for cls in [c for c in ast.walk(tree) if isinstance(c, ast.ClassDef) and c.name not in recs]:
+        for n in ast.walk(cls):
+            if isinstance(n, ast.Attribute) and isinstance(n.value, ast.Name) and n.value.id in ("self", "cls") and n.attr in all_fields:
+                return tree
+
+    class R(ast.NodeTransformer):
+        def visit_Call(self, c):
+            self.generic_visit(c)
+            if isinstance(c.func, ast.Name) and c.func.id in recs and not any(isinstance(a, ast.Starred) for a in c.args) and not any(k.arg is None for k in c.keywords):
+                slots, vals, params, pdef = recs[c.func.id]
+                bound = {params[i]: a for i, a in enumerate(c.args) if i < len(params)}
+                bound.update({k.arg: k.value for k in c.keywords})
+                items = []
+                for f in slots:
+                    v = vals[f]
+                    if isinstance(v, ast.Name):
+                        v = bound.get(v.id, pdef.get(v.id))
+                        if v is None:
+                            return c
+                    items.append((f, copy.deepcopy(v)))
+                return ast.copy_location(ast.Dict(keys=[ast.Constant(value=f) for f, _ in items], values=[v for _, v in items]), c)
+            return c
+
+        def visit_Attribute(self, n):
+            self.generic_visit(n)
+            if isinstance(n.value, ast.Name) and n.value.id not in ("self", "cls") and n.attr in all_fields:
+                return ast.copy_location(ast.Subscript(value=n.value, slice=ast.Constant(value=n.attr), ctx=n.ctx), n)
+            return n
+
+        def visit_ClassDef(self, n):
+            return n if n.name in recs else self.generic_visit(n)
+    return R().visit(tree)
+
+
 def normalise(tree: ast.AST, extern=None) -> ast.AST:
     tree = _canonical_imports(tree)
+    tree = _slotted_records_as_dicts(tree)
     tree = _instance_constants(tree)
     tree = _records_as_tuples(tree)
     tree = _inline_attribute_aliases(tree)
